@@ -128,6 +128,11 @@ class TypeEnv:
                     ts = self.resolve_ann(n.annotation, f.module, f.cls)
                     if ts:
                         return ts
+            la = getattr(f.node, "_local_anns", None)
+            if la and expr.id in la:
+                ts = self.resolve_ann(la[expr.id], f.module, f.cls)
+                if ts:
+                    return ts
             if expr.id in aliases:
                 return self.expr_types(aliases[expr.id], f, aliases, depth + 1)
             # enclosing function (nested defs: closures over ir, self ...)
